@@ -107,7 +107,11 @@ VERIF_HARNESS(c20_l1_print_link) {
   if (bl > 0) VERIF_ASSERT(((st & COAP_PRINT_STATUS_TRUNC) != 0) == (off + expw < total), "L1 truncation flag set exactly when listing remains beyond the window");
   if (bl > 0) VERIF_ASSERT(offset == (off > total ? off - total : 0), "L1 offset is reduced by the amount of listing skipped (non-empty buffer)");
 #ifdef WITNESS
+#if PL + NATTR * 3 >= 4
   if (expw > 3 && off > 2 && (st & COAP_PRINT_STATUS_TRUNC)) VERIF_REACH("L1 inner window, truncated");
+#else
+  if (expw >= 1 && (st & COAP_PRINT_STATUS_TRUNC)) VERIF_REACH("L1 truncated window");
+#endif
 #endif
 }
 
